@@ -384,6 +384,12 @@ func extractOption(nodes map[string]*chanCall, opts ...Option) (map[string][]any
 				// designate to sub graph's nodes
 				nOpt := opt.deepCopy()
 				nOpt.paths = []*NodePath{NewNodePath(path.path[1:]...)}
+				if curNode.action.subNodes != nil {
+					// checked now: the nested graph checks it again when it runs, but a run may not reach it
+					if _, err := extractOption(curNode.action.subNodes, nOpt); err != nil {
+						return nil, fmt.Errorf("option designated below node[%s]: %w", curNodeKey, err)
+					}
+				}
 				optMap[curNodeKey] = append(optMap[curNodeKey], nOpt)
 			}
 		}
